@@ -1,8 +1,11 @@
 //! C18: every accepted task runs exactly once; ordered collections keep their order.
-//! M+S cells (Coq mechanism model): WorkStealingQueue histories, WorkStealingExecutor::submit,
-//! parallel_map / parallel_reduce / process_batch result collection, BatchCollector.
-//! S-only cells (direct oracle): the running executor on tokio runtimes, FiberPool::spawn,
-//! execute_stream, fiber_yield / fiber_aio helpers, AsyncMemoryBlobStore batches.
+//! M+S cells (Coq mechanism models, coq/C18/Model*.v): WorkStealingQueue histories, WorkStealingExecutor::submit, hook-driven
+//! executor histories (with is_idle / queue-length observers), single-worker execution order with the counters;
+//! FiberPool::spawn histories (semaphore), parallel_map / parallel_for_each / parallel_reduce (result, execution order,
+//! call trace, statistics), concurrency::{parallel_map, join_all, parallel_reduce}, spawn_batch; Pipeline::process_batch / execute_single /
+//! execute_two_stage (error identities, statistics), execute_stream (join loop), BatchCollector (also against the real clock).
+//! S-only cells (direct oracle): the running executor on tokio runtimes, one queue under OS threads, BatchCollector with its
+//! background checker on two threads, fiber_yield / fiber_aio helpers, AsyncMemoryBlobStore batches.
 use crate::util::*;
 use serde_json::{json, Value};
 use std::future::Future;
@@ -918,6 +921,15 @@ fn reduce_case(cx: &mut Ctx, which: u64, rt: usize, mw: usize, xs: &[i64], force
                 } else {
                     cx.coq(3, k as u64, 0, xs, &obs_opt(&got), &case, force);
                 }
+            } else if rt == 0 {
+                // concurrency::parallel_reduce: chunk_size = ceil(len / num_cpus::get()); FiberPoolConfig::default() reports the same number
+                let ncpu = FiberPoolConfig::default().initial_workers.max(1);
+                let mut obs: Vec<i64> = obs_opt(&got);
+                obs.push(-7);
+                obs.extend(trace.lock().unwrap().iter().map(|&l| l as i64));
+                let mut cj = case.clone();
+                cj["kind"] = json!(18);
+                cx.coq(18, ncpu as u64, 0, xs, &obs, &cj, force);
             }
             if got != want { cx.sum.fail(cell, None, case, &format!("returned {:?}, the sequential fold gives {:?}", got, want)); }
         }
@@ -1394,7 +1406,7 @@ fn enumerate_queue(cx: &mut Ctx, len: usize, alphabet: &[i64], cap: usize, strid
 
 pub fn run(args: &Args) {
     let mut cx = Ctx {
-        sum: Summary::new("C18", "corpus; all WorkStealingQueue histories of <= 6 operations over push(prio 0/1, stealable or not)/pop_local/steal/balance + random histories around the capacity; the running executor with 1, 2, 3, 4 workers on current-thread and multi-thread runtimes, task counts around workers*capacity, around the global overflow and around the balance trigger (100 executed), mixed priorities/stealability/task behaviour (incl. tasks that fail, that panic, and that submit children from inside a worker), workers busy / idle / idle for 120 ms when the tasks arrive, a second wave after a complete drain; executor histories through the paused-executor hook (all interleavings of submit/find_task/balance of small shape for 1 and 2 workers + random ones for 1..4 workers); parallel_map/for_each/reduce, process_batch, execute_stream, BatchCollector and the yield/aio helpers on vectors of length 0..40 with and without failing, panicking and timed-out items, concurrency limits, batch sizes and yield intervals 0, 1, 2, around the input length and beyond. A case is non-trivial when it has >= 2 tasks/items (queue histories: >= 2 pushes and a steal or balance); distinct = distinct canonical case text"),
+        sum: Summary::new("C18", "corpus; all WorkStealingQueue histories of <= 6 operations over push(prio 0/1, stealable or not)/pop_local/steal/balance + random histories around the capacity; the running executor with 1, 2, 3, 4 workers on current-thread and multi-thread runtimes, task counts around workers*capacity, around the global overflow and around the balance trigger (100 executed), mixed priorities/stealability/task behaviour (incl. tasks that fail, that panic, and that submit children from inside a worker), workers busy / idle / idle for 120 ms when the tasks arrive, a second wave after a complete drain; executor histories through the paused-executor hook (all interleavings of submit/find_task/balance of small shape for 1 and 2 workers + random ones for 1..4 workers); FiberPool histories (1..9 gated bodies that succeed, fail or panic, max_fibers 1..n+1, random gate orders); executor histories with is_idle and queue-length observers around the capacity; parallel_map/for_each/reduce, process_batch, execute_single/two_stage, execute_stream (also with panicking stages), BatchCollector (also against the real clock and with its background checker on two threads) and the yield/aio helpers on vectors of length 0..40 with and without failing, panicking and timed-out items, concurrency limits, batch sizes and yield intervals 0, 1, 2, around the input length and beyond. A case is non-trivial when it has >= 2 tasks/items (queue histories: >= 2 pushes and a steal or balance); distinct = distinct canonical case text"),
         shards: CoqShards::new(&header(), 300),
         budget: {
             let mut b = [0usize; NK];
@@ -1408,6 +1420,7 @@ pub fn run(args: &Args) {
             b[2] += 20;
             b[13] = 100;
             b[15] = if args.thorough { 200 } else { 24 };
+            b[18] = if args.thorough { 200 } else { 24 }; // concurrency::parallel_reduce
             b
         },
         used: [0; NK],
@@ -1420,7 +1433,7 @@ pub fn run(args: &Args) {
               "FiberPool::spawn (semaphore history)", "Pipeline::execute_single/two_stage", "BatchCollector (clock)"] {
         cx.sum.cell_status(c, "M+S");
     }
-    cx.sum.cell_status("concurrency::parallel_reduce", "S-only");
+    cx.sum.cell_status("concurrency::parallel_reduce", "M+S");
     if let Some(f) = &args.replay {
         let txt = std::fs::read_to_string(f).expect("replay file");
         let v: Value = serde_json::from_str(&txt).expect("replay json");
@@ -1569,7 +1582,7 @@ pub fn run(args: &Args) {
         enumerate_hist(&mut cx, 7, &alpha1, 1, 8, if thorough { 1 } else { 97 });
         // admission made visible: after every submission the (local, steal, global) lengths of the worker it went to and
         // is_idle(); around the capacity, so that the spill to the global queue and the round-robin choice show
-        let nadm = if thorough { 400 } else { 40 };
+        let nadm = if thorough { 400 } else { 30 };
         for k in 0..nadm {
             let mut r = cx.rng.clone();
             let nw = *r.pick(&[1usize, 2, 2, 3, 4]);
@@ -1639,6 +1652,7 @@ pub fn run(args: &Args) {
                 if rt != 0 { foreach_case(&mut cx, 0, mf.max(1), &xs, false); }
                 for &mw in &[0usize, 1, 2, 3, n.max(2) - 1, n.max(1), n + 1, 100] { reduce_case(&mut cx, 0, rt, mw, &xs, false); }
                 reduce_case(&mut cx, 1, rt, 1, &xs, false);
+                if rt != 0 { reduce_case(&mut cx, 1, 0, 1, &xs, false); }
                 if fail == 0 && n > 0 {
                     // a panicking item is a join error: it must surface as Err
                     let mut ys = xs.clone();
@@ -1652,7 +1666,7 @@ pub fn run(args: &Args) {
 
     // 4b. FiberPool histories: the semaphore under a schedule chosen by the harness
     {
-        let nph = if thorough { 1500 } else { 60 };
+        let nph = if thorough { 1500 } else { 50 };
         for k in 0..nph {
             let mut r = cx.rng.clone();
             let n = if k < 4 { k + 1 } else { r.range(2, 9) as usize };
@@ -1716,7 +1730,7 @@ pub fn run(args: &Args) {
             collector_case(&mut cx, maxb, tz, &ops, false);
         }
         // BatchCollector against the real clock: check_timeout before and after the batch timeout has passed
-        let nclock = if thorough { 200 } else { 24 };
+        let nclock = if thorough { 200 } else { 20 };
         for k in 0..nclock {
             let mut r = cx.rng.clone();
             let maxb = *r.pick(&[2usize, 3, 4, 7]);
